@@ -1,4 +1,5 @@
 registry! {
     "C01" => c01,
     "C05" => c05,
+    "C51" => c51,
 }
